@@ -216,4 +216,88 @@ theorem enumSetByNameF_iff (cx : Ctx F E) (hnf : NoFormulaNodes cx) (d : Nat) (n
       | err e => simp [he, resOpt] at hv
       | panic => simp [he, resOpt] at hv
 
+/-! ### raw `IRegister::read` -/
+
+theorem imageBytes_length : ∀ (mem : Bytes) (k n : Nat) (bs : Bytes), imageBytes mem k n = some bs → bs.length = n
+  | _, _, 0, bs, h => by simp [imageBytes] at h; simp [← h]
+  | mem, k, n + 1, bs, h => by
+    simp only [imageBytes] at h
+    cases hk : mem[k]? with
+    | none => simp [hk] at h
+    | some b =>
+      simp only [hk, Option.map_eq_some_iff] at h
+      obtain ⟨t, ht, rfl⟩ := h
+      simp [imageBytes_length mem (k + 1) n t ht]
+
+theorem imageRead_length {mem : Bytes} {a : Int} {n : Nat} {bs : Bytes} (h : imageRead mem a n = some bs) :
+    bs.length = n := by
+  unfold imageRead at h
+  split at h
+  · exact imageBytes_length _ _ _ _ h
+  · cases h
+
+theorem regReadF_iff (cx : Ctx F E) (hnf : NoFormulaNodes cx) (d : Nat) (n : NodeId) (bufLen : Nat) (s : S F)
+    (bs : Bytes) :
+    R.val (regReadF cx (execRec cx d) n bufLen) s = .ok bs ↔ specRegRead cx d n bufLen s = some bs := by
+  have ihB := valIH cx hnf d
+  have ihA := specIH cx d
+  unfold regReadF specRegRead
+  cases hg : cx.graph n with
+  | none => simp
+  | some nd =>
+    simp only
+    cases hr : nd.regBase? with
+    | none => simp
+    | some rb =>
+      simp only [Option.bind_eq_some_iff]
+      constructor
+      · intro h
+        simp only [regRead, R.val_bind] at h
+        obtain ⟨a, ha, h1⟩ := Res.bind_eq_ok h
+        obtain ⟨l, hl, h2⟩ := Res.bind_eq_ok h1
+        unfold readAndCache at h2
+        by_cases hm : lenMatches bufLen l = true
+        · simp only [hm, Bool.not_true, Bool.false_eq_true, if_false] at h2
+          obtain ⟨⟨b, hp⟩, hrd⟩ := portRead_spec h2
+          have ha' := sumAddrs_spec ihB rb.addrs 0 a (by simpa [regAddress] using ha)
+          have hl' := immIntValue_spec ihB (by simpa [regLength] using hl)
+          simp only [lenMatches, Bool.and_eq_true, decide_eq_true_eq] at hm
+          obtain ⟨hl0, hbl⟩ := hm
+          have hrd' : imageRead s.dev.mem a l.toNat = some bs := by
+            rw [← hbl]; simpa using hrd
+          refine ⟨bs, ?_, ?_⟩
+          · simp [regBytes, hl', ha', hl0, hp]
+            rw [← hbl]; exact hrd
+          · simp [imageRead_length hrd', hbl]
+        · simp [hm] at h2
+      · rintro ⟨bs', hb, hlen⟩
+        by_cases hbl : bs'.length = bufLen
+        · simp only [hbl, if_true, Option.some.injEq] at hlen
+          subst hlen
+          simp only [regBytes, Option.bind_eq_some_iff] at hb
+          obtain ⟨l, hl, a, ha, h⟩ := hb
+          by_cases hl0 : 0 ≤ l
+          · simp only [hl0, if_true] at h
+            cases hgp : cx.graph rb.port with
+            | none => simp [hgp] at h
+            | some pn =>
+              cases pn <;> simp only [hgp] at h <;> try (simp at h; done)
+              rename_i b chunk
+              cases chunk with
+              | true => simp at h
+              | false =>
+                simp only at h
+                have hlen := imageRead_length h
+                have hpr : R.val (portRead cx rb.port a bufLen) s = .ok bs' := by
+                  have : s.dev.read a l.toNat = some bs' := by simpa using h
+                  rw [← hbl, hlen]
+                  simp [portRead, hgp, R.val, this]
+                have hbl' : bufLen = l.toNat := by omega
+                subst hbl'
+                have hnl : ¬ l < 0 := by omega
+                simp [regRead, regLength, regAddress, immInt_exec ihA hl, addrSum_exec ihA _ _ _ ha,
+                  readAndCache, lenMatches, hnl, hpr]
+          · simp [hl0] at h
+        · simp [hbl] at hlen
+
 end CamVerif.C03
